@@ -111,6 +111,9 @@ type Response struct {
 	// Rejected: CreateOperationContext refused the request (nothing executed)
 	Rejected bool
 	Recovers int
+	HasNext  *bool
+	Label    string
+	Path     ast.Path
 }
 
 // Do executes one operation directly against the executor with the given Exec state current.
@@ -133,5 +136,5 @@ func (s *Server) Do(ctx context.Context, e *univ.Exec, query, opName string, var
 	if resp == nil {
 		return &Response{Recovers: int(recovers.Load())}
 	}
-	return &Response{Data: resp.Data, Errors: resp.Errors, Recovers: int(recovers.Load())}
+	return &Response{Data: resp.Data, Errors: resp.Errors, Recovers: int(recovers.Load()), HasNext: resp.HasNext, Label: resp.Label, Path: resp.Path}
 }
